@@ -3,18 +3,26 @@
 (* depth, what must be accepted, the bound.  See Depth.tla.                  *)
 EXTENDS Naturals, Sequences
 SizeNames == {"1", "L-2", "L-1", "L", "L+1", "4L"}
-Size(nm, L) == CASE nm = "1" -> 1 [] nm = "L-2" -> L - 2 [] nm = "L-1" -> L - 1 [] nm = "L" -> L [] nm = "L+1" -> L + 1 [] nm = "4L" -> 4 * L
+\* "H" (half the limit) is used only for chains of array-of-tables headers, which nest two levels per key
+Size(nm, L) == CASE nm = "1" -> 1 [] nm = "H" -> (L - 1) \div 2 [] nm = "L-2" -> L - 2 [] nm = "L-1" -> L - 1 [] nm = "L" -> L [] nm = "L+1" -> L + 1 [] nm = "4L" -> 4 * L
 
+\* "AE" / "IE": like "A" / "I" with an empty container as the first sibling at every level ([[], [[], ... ]] and
+\* {e={}, k={e={}, k=...}}): an empty container must neither take nor give back a level
 Layers1 == {[c |-> "A", n |-> n, s |-> "1"] : n \in SizeNames}
            \cup {[c |-> "I", n |-> n, s |-> s] : n \in SizeNames, s \in {"1", "L-1"}}
+           \cup {[c |-> "AE", n |-> n, s |-> "1"] : n \in {"L-2", "L", "4L"}}
+           \cup {[c |-> "IE", n |-> n, s |-> "1"] : n \in {"L-2", "L", "4L"}}
 Patterns == {[hs |-> h[1], hk |-> h[2], ks |-> ks, layers |-> ls] :
-               h \in {<<"0", "std">>} \cup ({"1", "L-1", "L", "4L"} \X {"std", "aot"}), ks \in {"1", "L-1", "L"},
+               h \in {<<"0", "std">>} \cup ({"1", "L-1", "L", "4L"} \X {"std", "aot"}) \cup ({"1", "H", "L-1"} \X {"chain"}), ks \in {"1", "L-1", "L"},
                ls \in {<<>>} \cup {<<a>> : a \in Layers1} \cup {<<a, b>> : a, b \in Layers1}}
 
-HS(p, L) == IF p.hs = "0" THEN 0 ELSE Size(p.hs, L)
+\* hk = "chain": the headers [[k]], [[k.k]], ... up to hs keys - an array and a table per key
+HS(p, L) == IF p.hs = "0" THEN 0 ELSE IF p.hk = "chain" THEN 2 * Size(p.hs, L) ELSE Size(p.hs, L)
 RECURSIVE LayerDepth(_, _)
 LayerDepth(ls, L) == IF ls = <<>> THEN 0
-                     ELSE (IF Head(ls).c = "A" THEN Size(Head(ls).n, L) ELSE Size(Head(ls).n, L) * Size(Head(ls).s, L))
+                     \* (the empty sibling at the innermost level sits beside the scalar: same number of levels above it;
+                     \* entering it costs the parser one more level, which is why these layers use L-2 where others use L-1)
+                     ELSE (IF Head(ls).c \in {"A", "AE", "IE"} THEN Size(Head(ls).n, L) ELSE Size(Head(ls).n, L) * Size(Head(ls).s, L))
                           + LayerDepth(Tail(ls), L)
 \* number of container levels between the root table and the scalar leaf
 StructDepth(p, L) == HS(p, L) + (Size(p.ks, L) - 1) + LayerDepth(p.layers, L)
@@ -24,9 +32,9 @@ Bound(L) == 4 * L
 
 \* "documents nested below the limit in each single construct are still accepted"
 Single(p) == \/ (p.layers = <<>>)
-             \/ (p.hs = "0" /\ p.ks = "1" /\ Len(p.layers) = 1 /\ (p.layers[1].c = "A" \/ p.layers[1].s = "1"))
-Below(nm) == nm \in {"0", "1", "L-2", "L-1"}
-MustAccept(p) == /\ Single(p) /\ Below(p.hs) /\ Below(p.ks)
+             \/ (p.hs = "0" /\ p.ks = "1" /\ Len(p.layers) = 1 /\ (p.layers[1].c \in {"A", "AE"} \/ p.layers[1].s = "1"))
+Below(nm) == nm \in {"0", "1", "H", "L-2", "L-1"}
+MustAccept(p) == /\ Single(p) /\ Below(p.hs) /\ Below(p.ks) /\ (p.hk = "chain" => p.hs \in {"1", "H"})
                  /\ \A i \in 1..Len(p.layers) : Below(p.layers[i].n) /\ Below(p.layers[i].s)
 
 =============================================================================
